@@ -6,6 +6,7 @@
 //                           -> "store L full=ok|bad prefixes_accepted=k other_space_accepted=0|1"
 //   GRAPH nv | tag.. | u v w .. | starts.. | goals..     PlannerData over the last nv states; store/load/prefixes
 //                           -> "graph L load=1 nv ne | types.. | edges.. | prefixes_accepted=k other=0|1"
+//   CGRAPH seed nv ne       control::PlannerData (controls, durations, weights, marks) through control::PlannerDataStorage; self-comparing
 //   PARTIAL seed            copyStateData between related compound spaces (fixed layouts, values from seed)
 #include <functional>
 #include <ompl/base/StateSpace.h>
@@ -20,6 +21,14 @@
 #include <ompl/base/spaces/TimeStateSpace.h>
 #include <ompl/base/spaces/DiscreteStateSpace.h>
 #include <ompl/util/Console.h>
+#include <ompl/base/spaces/SE2StateSpace.h>
+#include <ompl/control/PlannerData.h>
+#include <ompl/control/PlannerDataStorage.h>
+#include <ompl/control/SpaceInformation.h>
+#include <ompl/control/spaces/RealVectorControlSpace.h>
+#include <random>
+#include <boost/serialization/export.hpp>
+BOOST_CLASS_EXPORT(ompl::control::PlannerDataEdgeControl);   // the registration the library's documentation asks of its clients
 #include <cstring>
 #include <iostream>
 #include <sstream>
@@ -142,6 +151,56 @@ int main()
             auto other = std::make_shared<ob::RealVectorStateSpace>(sp->getDimension() + 1); other->setBounds(-1, 1);
             auto sio = std::make_shared<ob::SpaceInformation>(other); ob::PlannerData po(sio); bool oacc; { std::istringstream is(bytes, std::ios::binary); oacc = pds.load(is, po); }
             std::printf(" | prefixes_accepted=%zu other=%d\n", accepted, oacc ? 1 : 0);
+        }
+        else if (op == "CGRAPH")
+        {   // CGRAPH seed nv ne: a planner-data graph WITH CONTROLS (control::PlannerData over SE(2) x R^2 controls: vertices with tags, start / goal
+            // marks, edges carrying a control, a duration and a weight) stored and loaded through control::PlannerDataStorage; everything compared
+            namespace oc = ompl::control;
+            unsigned seed; int nv, ne; in >> seed >> nv >> ne; std::mt19937 gen(seed); auto U = [&gen](double a, double b) { return std::uniform_real_distribution<double>(a, b)(gen); };
+            auto sp2 = std::make_shared<ob::SE2StateSpace>(); { ob::RealVectorBounds b(2); b.setLow(-5); b.setHigh(5); sp2->setBounds(b); }
+            auto cs = std::make_shared<oc::RealVectorControlSpace>(sp2, 2); { ob::RealVectorBounds b(2); b.setLow(-1); b.setHigh(1); cs->setBounds(b); }
+            auto csi = std::make_shared<oc::SpaceInformation>(sp2, cs); csi->setStateValidityChecker([](const ob::State *) { return true; });
+            csi->setStatePropagator([](const ob::State *, const oc::Control *, double, ob::State *) {}); csi->setup();
+            oc::PlannerData pd(csi); std::vector<ob::State *> sts; std::vector<oc::Control *> ctl;
+            for (int i = 0; i < nv; ++i)
+            {
+                ob::State *st = sp2->allocState(); auto *se = st->as<ob::SE2StateSpace::StateType>(); se->setXY(U(-5, 5), U(-5, 5)); se->setYaw(U(-3, 3)); sts.push_back(st);
+                ob::PlannerDataVertex v(st, (int)(gen() % 7));
+                if (i == 0) pd.addStartVertex(v); else if (i == nv - 1 && nv > 1) pd.addGoalVertex(v); else pd.addVertex(v);
+            }
+            struct E { unsigned u, v; double c0, c1, dur, w; }; std::vector<E> es;
+            for (int k = 0; k < ne && nv > 1; ++k)
+            {
+                E e; e.u = gen() % nv; e.v = gen() % nv; if (e.u == e.v || pd.edgeExists(e.u, e.v)) continue;
+                e.c0 = U(-1, 1); e.c1 = U(-1, 1); e.dur = (1 + gen() % 9) * 0.05; e.w = (k % 4 == 0) ? 1.0 : (k % 4 == 1 ? 0.0 : U(0, 20));
+                oc::Control *c = cs->allocControl(); c->as<oc::RealVectorControlSpace::ControlType>()->values[0] = e.c0; c->as<oc::RealVectorControlSpace::ControlType>()->values[1] = e.c1; ctl.push_back(c);
+                if (pd.addEdge(e.u, e.v, oc::PlannerDataEdgeControl(c, e.dur), ob::Cost(e.w))) es.push_back(e);
+            }
+            oc::PlannerDataStorage pds; std::stringstream ss(std::ios::in | std::ios::out | std::ios::binary); pds.store(pd, ss); std::string bytes = ss.str();
+            oc::PlannerData p2(csi); bool ok; { std::istringstream is(bytes, std::ios::binary); ok = pds.load(is, p2); }
+            std::string bad;
+            if (!ok) bad = "load refused its own image";
+            else if (p2.numVertices() != pd.numVertices() || p2.numEdges() != pd.numEdges()) bad = "vertex / edge count changed";
+            for (unsigned i = 0; bad.empty() && i < p2.numVertices(); ++i)
+            {
+                if (!sp2->equalStates(p2.getVertex(i).getState(), pd.getVertex(i).getState()) || p2.getVertex(i).getTag() != pd.getVertex(i).getTag()) bad = "state or tag of vertex " + std::to_string(i) + " changed";
+                else if (p2.isStartVertex(i) != pd.isStartVertex(i) || p2.isGoalVertex(i) != pd.isGoalVertex(i)) bad = "start / goal mark of vertex " + std::to_string(i) + " changed";
+            }
+            for (auto &e : es)
+            {
+                if (!bad.empty()) break;
+                if (!p2.edgeExists(e.u, e.v)) { bad = "edge " + std::to_string(e.u) + "-" + std::to_string(e.v) + " lost"; break; }
+                ob::Cost w; p2.getEdgeWeight(e.u, e.v, &w);
+                auto *ec = dynamic_cast<const oc::PlannerDataEdgeControl *>(&p2.getEdge(e.u, e.v));
+                if (w.value() != e.w) bad = "weight of edge " + std::to_string(e.u) + "-" + std::to_string(e.v) + ": stored " + std::to_string(e.w) + ", loaded " + std::to_string(w.value());
+                else if (!ec) bad = "edge " + std::to_string(e.u) + "-" + std::to_string(e.v) + " lost its control";
+                else if (ec->getDuration() != e.dur || ec->getControl()->as<oc::RealVectorControlSpace::ControlType>()->values[0] != e.c0 || ec->getControl()->as<oc::RealVectorControlSpace::ControlType>()->values[1] != e.c1) bad = "control or duration of edge " + std::to_string(e.u) + "-" + std::to_string(e.v) + " changed";
+            }
+            std::size_t accepted = 0;
+            for (std::size_t k = 0; k < bytes.size(); k += 1 + bytes.size() / 97) { oc::PlannerData pp(csi); std::istringstream is(bytes.substr(0, k), std::ios::binary); if (pds.load(is, pp)) ++accepted; }
+            if (bad.empty() && accepted > 0) bad = std::to_string(accepted) + " strict prefixes of the image were accepted";
+            std::printf("cgraph %u %zu %s\n", p2.numVertices(), es.size(), bad.empty() ? "ok" : bad.c_str());
+            for (auto *st : sts) sp2->freeState(st);
         }
         else if (op == "PARTIAL")
         {
